@@ -72,6 +72,10 @@ def run(tier):
     runs = e2e.run_optimize(blocks, osets, assign="rotate" if tier == "quick" else "all")
     # witness blocks under every criterion
     runs += e2e.run_optimize(blocks[-(63 + 3 * len(gen.ENV0) if tier == "quick" else 603 + 3 * len(gen.ENV0)):] + gen.size_fold_corpus() + gen.access_pair_corpus(), [["-greedy"], ["-greedy", "-size"], ["-greedy", "-length"]], assign="all")
+    # PUSH0 disabled together with each criterion: blocks whose simplification leaves a zero (a zero push is then two bytes, and must be counted so)
+    zero = ["DUP1 XOR", "DUP1 SUB", "DUP1 LT", "DUP1 GT", "DUP1 XOR SWAP1 POP", "PUSH1 0x5 PUSH1 0x5 SUB ADD", "DUP1 DUP1 SUB SWAP1", "PUSH1 0x0 PUSH1 0x0 ADD DUP1",
+            "DUP2 DUP1 XOR ADD", "PUSH1 0x3 DUP1 SUB DUP1 MSTORE"]
+    runs += e2e.run_optimize(zero, [["-greedy", "-push0"], ["-greedy", "-size", "-push0"], ["-greedy", "-length", "-push0"]], assign="all")
     reqs, meta = [], []
     for text, opts, e, st in runs:
         if e is None:
